@@ -88,7 +88,7 @@ def host : Component where
       | none => (st, line4 "-" (stStr st.m) "-" "close-unknown ")
       | some s =>
         let m' := st.m.close s
-        -- spec: the socket leaves the open set
+        -- spec: the socket leaves the open set (a second Close of the same socket finds nothing)
         let idx := st.sids.idxOf s.id
         let open' := if idx < st.sids.length then st.s.open_.eraseIdx idx else st.s.open_
         let sids' := if idx < st.sids.length then st.sids.eraseIdx idx else st.sids
